@@ -12,3 +12,11 @@ pub use self::raw::Input;
 pub use self::raw::Player;
 pub use self::raw::PlayerChange;
 pub use self::raw::Pos;
+
+/// Verification hook: the incremental reader driven by a caller-supplied read callback.
+#[cfg(feature = "libtw2_verif")]
+pub mod verif {
+    pub use crate::raw::Callback;
+    pub use crate::raw::Error;
+    pub use crate::raw::Reader;
+}
